@@ -1,9 +1,8 @@
-//go:build comp_all || comp_ipparse
+//go:build comp_all || comp_ipparse || comp_reject
 
 package main
 
 import (
-	"encoding/binary"
 	"fmt"
 	"net/netip"
 	"strings"
@@ -17,65 +16,6 @@ import (
 func init() {
 	hx.Register("gen_ipparse", genIpParse)
 	hx.Register("ipparse", runIpParse)
-}
-
-// ---- packet builders ----------------------------------------------------------------------------
-
-func ippV6Fixed(nh byte, payloadLen int, src, dst [16]byte) []byte {
-	b := make([]byte, 40)
-	b[0] = 0x60
-	binary.BigEndian.PutUint16(b[4:], uint16(payloadLen))
-	b[6] = nh
-	b[7] = 64
-	copy(b[8:24], src[:])
-	copy(b[24:40], dst[:])
-	return b
-}
-
-// one extension header of the given kind, `l` is the value of its length byte (ignored for fragment headers),
-// fragOff13/m fill a fragment header. body bytes are `fill`.
-func ippExt(kind, next byte, l int, fragOff13 int, resM byte, fill byte) []byte {
-	var n int
-	switch kind {
-	case 44:
-		h := make([]byte, 8)
-		h[0] = next
-		h[1] = fill
-		binary.BigEndian.PutUint16(h[2:], uint16(fragOff13<<3)|uint16(resM&7))
-		h[4], h[5], h[6], h[7] = 0xde, 0xad, 0xbe, 0xef
-		return h
-	case 51:
-		n = (l + 2) * 4
-	default:
-		n = (l + 1) * 8
-	}
-	h := make([]byte, n)
-	for i := range h {
-		h[i] = fill
-	}
-	h[0] = next
-	h[1] = byte(l)
-	return h
-}
-
-var ippSrc6 = [16]byte{0xfd, 0, 0, 0, 0, 0, 0, 0, 0, 0, 0, 0, 0, 0, 0, 1}
-var ippDst6 = [16]byte{0xfd, 0, 0, 0, 0, 0, 0, 0, 0, 0, 0, 0, 0, 0, 0, 2}
-
-func ippChain(kinds []byte, lens []int, terminal byte, payload []byte) []byte {
-	body := []byte{}
-	for i, k := range kinds {
-		next := terminal
-		if i+1 < len(kinds) {
-			next = kinds[i+1]
-		}
-		body = append(body, ippExt(k, next, lens[i], 0, 1, 0)...)
-	}
-	first := terminal
-	if len(kinds) > 0 {
-		first = kinds[0]
-	}
-	body = append(body, payload...)
-	return append(ippV6Fixed(first, len(body), ippSrc6, ippDst6), body...)
 }
 
 // ---- T1 / T2: measured from the compiled walker ----------------------------------------------------
@@ -203,49 +143,7 @@ func runIpParse(c *hx.Ctx) {
 		add(p, false, kind)
 	}
 
-	tcp := func(sp, dp uint16, flags byte) []byte {
-		t := make([]byte, 20)
-		binary.BigEndian.PutUint16(t[0:], sp)
-		binary.BigEndian.PutUint16(t[2:], dp)
-		binary.BigEndian.PutUint32(t[4:], 0x01020304)
-		binary.BigEndian.PutUint32(t[8:], 0x0a0b0c0d)
-		t[12] = 5 << 4
-		t[13] = flags
-		return t
-	}
-	udp := func(sp, dp uint16) []byte {
-		u := make([]byte, 8)
-		binary.BigEndian.PutUint16(u[0:], sp)
-		binary.BigEndian.PutUint16(u[2:], dp)
-		binary.BigEndian.PutUint16(u[4:], 8)
-		return u
-	}
-	icmp := func(typ, code byte, id, seq uint16) []byte {
-		m := make([]byte, 8)
-		m[0], m[1] = typ, code
-		binary.BigEndian.PutUint16(m[4:], id)
-		binary.BigEndian.PutUint16(m[6:], seq)
-		return m
-	}
-	v4 := func(ihlWords int, proto byte, flagsFrag uint16, payload []byte) []byte {
-		h := make([]byte, ihlWords*4)
-		h[0] = 0x40 | byte(ihlWords&0x0f)
-		binary.BigEndian.PutUint16(h[2:], uint16(len(h)+len(payload)))
-		binary.BigEndian.PutUint16(h[4:], 0x4242)
-		binary.BigEndian.PutUint16(h[6:], flagsFrag)
-		h[8] = 64
-		if len(h) > 9 {
-			h[9] = proto
-		}
-		if len(h) >= 20 {
-			copy(h[12:16], []byte{10, 1, 2, 3})
-			copy(h[16:20], []byte{192, 168, 7, 9})
-		}
-		for i := 20; i < len(h); i++ {
-			h[i] = byte(i)
-		}
-		return append(h, payload...)
-	}
+	tcp, udp, icmp, v4 := ippTCP, ippUDP, ippICMP, ippV4
 
 	// ---- corpus: the witness of known finding F18 (non-first fragment whose fragment header names header 60) ----
 	{
@@ -259,10 +157,10 @@ func runIpParse(c *hx.Ctx) {
 	truncSweep(v4(15, 17, 0, udp(53, 5353)), "v4-trunc")
 	truncSweep(v4(5, 1, 0, icmp(8, 0, 0xabcd, 1)), "v4-trunc")
 	truncSweep(v4(6, 1, 0, icmp(3, 1, 0x1111, 0)), "v4-trunc")
-	truncSweep(v4(5, 17, 0x2000, udp(53, 5353)), "v4-trunc")      // first fragment (MF)
+	truncSweep(v4(5, 17, 0x2000, udp(53, 5353)), "v4-trunc")         // first fragment (MF)
 	truncSweep(v4(5, 17, 0x2001, []byte{1, 2, 3, 4, 5}), "v4-trunc") // middle fragment
-	truncSweep(v4(7, 6, 0x00b9, []byte{}), "v4-trunc")             // last fragment, no payload
-	for ihl := 0; ihl < 16; ihl++ { // every IHL value, with and without the bytes to back it
+	truncSweep(v4(7, 6, 0x00b9, []byte{}), "v4-trunc")               // last fragment, no payload
+	for ihl := 0; ihl < 16; ihl++ {                                  // every IHL value, with and without the bytes to back it
 		p := v4(max(ihl, 5), 17, 0, udp(7, 9))
 		p[0] = 0x40 | byte(ihl)
 		add(p, true, "v4-ihl")
